@@ -20,6 +20,7 @@ import GwcsModel.Drv.C12
 import GwcsModel.Drv.C16
 import GwcsModel.Drv.C09
 import GwcsModel.Drv.C11
+import GwcsModel.Drv.C10
 open Lean Gwcs
 
 def dispatch (j : Json) : Json :=
@@ -31,6 +32,7 @@ def dispatch (j : Json) : Json :=
   | some "C16" => Gwcs.Drv.C16.handle j
   | some "C09" => Gwcs.Drv.C09.handle j
   | some "C11" => Gwcs.Drv.C11.handle j
+  | some "C10" => Gwcs.Drv.C10.handle j
   | some "C02" => Gwcs.Drv.C02.handle j
   | some "C05" => Gwcs.Drv.C05.handle j
   | some "C04" => Gwcs.Drv.C04.handle j
